@@ -191,6 +191,7 @@ def run_path(I: Interp, finfo: FuncInfo, con: Contract):
         st.assume(spec_bool(I, e, sf))
     for nm in con.invariants:
         st.assume(invariant_formula(I, nm, sf))
+    st.cfg["_pc_requires"] = len(st.pc)  # the path condition up to here is typing + the function's own preconditions
     st.old_stack.pop()
     if st.cfg.get("check_vacuity"):
         if not st.consistent(5000, full=True):
@@ -277,6 +278,9 @@ def invariant_formula(I: Interp, name: str, sf: Frame):
 
 
 # ------------------------------------------------------------------------------------------------- model decoding
+PROBE_KEYS: list = []
+
+
 def decode_val(model, st: State, t, depth=0, seen=None):
     """Evaluate a Val term in the model into a JSON-able description (follows object fields a few levels)."""
     v = model.eval(t, model_completion=True)
@@ -294,6 +298,7 @@ def decode_val(model, st: State, t, depth=0, seen=None):
         except Exception:
             return str(a)
     if d == "str":
+        PROBE_KEYS.append(v)  # strings seen while decoding: candidate dictionary keys for the second pass
         n = v.arg(0).as_long() if z3.is_int_value(v.arg(0)) else None
         lit = smt.STR.lit(n)
         return lit if lit is not None else f"<str#{n}>"
@@ -348,9 +353,10 @@ def decode_object(model, st: State, heap: dict, r: int, hint: Optional[T.Ty], de
         hk = T.strip_opt(hint) if hint is not None else None
         kty = hk.a[0] if hk is not None and hk.k in ("dict", "set") and hk.a else None
         vty = hk.a[1] if hk is not None and hk.k == "dict" and len(hk.a) > 1 else None
-        if n is not None and 0 <= n <= 8 and "dhas" in heap and "dget" in heap:
+        if n is not None and "dhas" in heap and "dget" in heap:
             pairs = []
-            for i in range(n if "dkeys" in heap else 0):
+            # small dictionaries are listed in key order; of large (or unbounded) ones only the probed members are kept
+            for i in range(n if ("dkeys" in heap and 0 <= n <= 8) else 0):
                 kt = z3.Select(z3.Select(heap["dkeys"], r), i)
                 vt = z3.Select(z3.Select(heap["dget"], r), kt)
                 pairs.append([decode_deep(model, st, heap, kt, kty, depth + 1, seen), decode_deep(model, st, heap, vt, vty, depth + 1, seen)])
@@ -358,6 +364,14 @@ def decode_object(model, st: State, heap: dict, r: int, hint: Optional[T.Ty], de
             # keys the model makes members without listing them (typically literal string keys of a precondition) are added
             if kty is None or kty.k in ("str", "any"):
                 shown = {json.dumps(p[0], default=str) for p in pairs}
+                # strings met anywhere in the model during the first decoding pass (parameters, names, uuids) are likely keys too
+                for kt in list(st.cfg.get("_probe_keys", [])):
+                    if len(pairs) < 16:
+                        if z3.is_true(model.eval(z3.Select(z3.Select(heap["dhas"], r), kt), model_completion=True)):
+                            kd = decode_val(model, st, kt)
+                            if json.dumps(kd, default=str) not in shown:
+                                shown.add(json.dumps(kd, default=str))
+                                pairs.append([kd, decode_deep(model, st, heap, z3.Select(z3.Select(heap["dget"], r), kt), vty, depth + 1, seen)])
                 for sid, lit in list(smt.STR.rev.items()):
                     if lit.startswith("ev:") or lit.startswith("sentinel:") or len(pairs) >= 16:
                         continue
@@ -365,7 +379,7 @@ def decode_object(model, st: State, heap: dict, r: int, hint: Optional[T.Ty], de
                     if z3.is_true(model.eval(z3.Select(z3.Select(heap["dhas"], r), kt), model_completion=True)) and json.dumps(lit) not in shown:
                         vt = z3.Select(z3.Select(heap["dget"], r), kt)
                         pairs.append([lit, decode_deep(model, st, heap, vt, vty, depth + 1, seen)])
-                out["$dict_size"] = max(n, len(pairs))
+                out["$dict_size"] = max(n, len(pairs)) if 0 <= n <= 8 else len(pairs)
             out["$dict"] = pairs
         return out
     if ci is not None:
@@ -406,14 +420,26 @@ def decode_deep(model, st, heap, t, hint, depth, seen):
 
 
 def decode_model(model, st: State) -> dict:
-    out = {"params": {}, "note": "entry state of the function as chosen by the solver"}
-    seen: dict = {}
-    for name, v in st.entry_params.items():
-        if isinstance(v, SV):
-            try:
-                out["params"][name] = decode_deep(model, st, st.entry_heap, v.t, v.ty, 0, seen)
-            except Exception as e:  # decoding is best effort
-                out["params"][name] = f"<undecodable: {e}>"
+    out = {}
+    st.cfg["_probe_keys"] = []
+    for _pass in (1, 2, 3, 4):  # later passes probe dictionaries with the strings the earlier ones met (until nothing new turns up)
+        before = {k_.get_id() for k_ in st.cfg["_probe_keys"]}
+        if _pass > 2 and before == getattr(decode_model, "_last", None):
+            break
+        decode_model._last = before
+        del PROBE_KEYS[:]
+        out = {"params": {}, "note": "entry state of the function as chosen by the solver"}
+        seen: dict = {}
+        for name, v in st.entry_params.items():
+            if isinstance(v, SV):
+                try:
+                    out["params"][name] = decode_deep(model, st, st.entry_heap, v.t, v.ty, 0, seen)
+                except Exception as e:  # decoding is best effort
+                    out["params"][name] = f"<undecodable: {e}>"
+        uniq = {}
+        for k_ in PROBE_KEYS:
+            uniq[k_.get_id()] = k_
+        st.cfg["_probe_keys"] = list(uniq.values())[:40]
     return out
 
 
@@ -465,6 +491,21 @@ def discharge(ob: Obligation, st: State, timeout_ms: int, use_cvc5: bool, both: 
                 ob.detail = "candidate model (solver gave up on quantifiers): " + str(m)
             except Exception:
                 ob.model = None
+        if st.cfg.get("ground") and ob.model is None:
+            # still nothing: look for a model of the quantifier-free part only (quantified assumptions and heap lambdas
+            # dropped).  Such a model may violate the dropped assumptions; like every candidate it counts only when the
+            # native replay, which re-checks the preconditions, reproduces the failure
+            from .interp import has_quant
+            keep = st.cfg.get("_pc_requires", 0)  # the function's own preconditions always stay
+            qf = [a_ for j_, a_ in enumerate(assertions) if j_ < keep or not has_quant(a_)]
+            if len(qf) < len(assertions):
+                r4, m4 = smt.check(qf, min(timeout_ms, 5000))
+                if r4 == "sat":
+                    try:
+                        ob.model = decode_model(m4, st)
+                        ob.detail = "candidate model (quantified assumptions dropped): " + str(m)
+                    except Exception:
+                        ob.model = None
         # quantifier instantiation is sensitive to scheduling noise: before giving up, two more attempts with other
         # solver seeds and twice the time (a verdict must not flip because the machine is busy)
         for attempt in (() if st.cfg.get("ground") else (1, 2)):
@@ -519,7 +560,12 @@ def verify_fuc(key: str, cfg: dict) -> FucResult:
             budget = con.budget_s
         while work:
             if time.time() - t0 > budget:
-                raise Refuse(f"time budget of {budget}s for one function exceeded after {res.paths} paths (split the function or simplify its contract)")
+                # out of time: what was explored stays (so that failing obligations still go through the refutation search);
+                # the unexplored rest makes the function undecided, never proved
+                res.obligations.append({"name": f"{res.qualname}.budget.paths_unexplored", "kind": "budget", "label": "paths_unexplored", "line": 0,
+                                        "path": "-", "status": "unknown", "backend": "-", "secs": 0.0, "model": None, "smt_head": None,
+                                        "detail": f"time budget of {budget}s for one function exceeded after {res.paths} paths; {len(work)} path prefixes unexplored"})
+                break
             trace = work.pop()
             pcfg = dict(cfg)
             pcfg["contract"] = con
